@@ -18,7 +18,7 @@ Init ==
           /\ Cardinality({i \in 1..n : ~o[i].f \/ ~q[i].f}) <= 1
           /\ in = [kind |-> "stats", obs |-> o, pred |-> q, p |-> p, long |-> FALSE]
      \/ \E cv \in GateClasses, pn \in GateClasses : in = [kind |-> "gate", cv |-> cv, pn |-> pn]
-     \/ \E f \in {"hourly", "daily", "billing"}, nm \in {"good", "other", "poor"} : in = [kind |-> "stored", fam |-> f, name |-> nm]
+     \/ \E f \in {"hourly", "daily", "billing"}, nm \in {"good", "other", "poor", "tgaps"} : in = [kind |-> "stored", fam |-> f, name |-> nm]     \* tgaps: hours whose temperature had to be filled while the usage is real
   /\ out = [res |-> "pending"] /\ pc = "call"
 Call == pc = "call" /\ out' = [res |-> "modelled"] /\ pc' = "done" /\ UNCHANGED in
 Next == Call
